@@ -283,7 +283,7 @@ pub fn tracked<R>(f: impl FnOnce() -> R) -> R {
 /// `#[global_allocator]`; then the balance checks are reported as inconclusive)
 pub fn installed() -> bool {
     let before = T_ALLOCS.load(SeqCst);
-    let b = tracked(|| Box::new(0x5au8));
+    let b = tracked(|| std::hint::black_box(Box::new(0x5au8)));
     let after = T_ALLOCS.load(SeqCst);
     drop(b);
     after == before + 1
